@@ -23,7 +23,8 @@ EXPLANATION = (
     "spline whose integral is c*(b-a). R05.5: one interpolant attribute. "
     "R05.6: the incomplete-data wrapper delegates to a ThermochemRawData "
     "built from its own fields in signature order, rebuilt only after the "
-    "fields it reads are stored. R05.7: G/RT = H/RT - S/R.")
+    "fields it reads are stored and (R05.8) rebuilt on every path of "
+    "_setup_correlation on which heat-capacity data exist (no memo). R05.7: G/RT = H/RT - S/R.")
 NOT_DECIDED = ("that scipy's spline interpolates the table and quad "
                "converges; numeric reproduction of reference values; "
                "floating-point error")
